@@ -2,7 +2,7 @@
    non-vacuity examples, refutation witnesses, Print Assumptions. *)
 From Coq Require Import List ZArith Bool.
 From Model Require Import Orm.
-From Proofs Require Import OrmSpec OrmWrites.
+From Proofs Require Import OrmSpec OrmWrites OrmInvCreate.
 Import ListNotations.
 Open Scope Z_scope.
 
@@ -18,7 +18,30 @@ Theorem C06_failing_write_changes_nothing :
     heap s' = heap s /\ slots s' = slots s /\ tables s' = tables s /\ caches s' = caches s /\ pickles s' = pickles s.
 Proof. exact failing_write_changes_nothing. Qed.
 
-(* The full statement also covers creation; it is FALSE of the code when a database error hits the
+(* Creation: on every state reachable by a history of library operations (guard04: no expire/clear/raw SQL/
+   fault in the PAST history), a create that raises -- missing keyword, invalid value in any position,
+   NOT NULL, duplicate key -- leaves heap, tables, cache and pickles alone; nothing is registered; the slot
+   the harness reserved for the new object stays empty. *)
+Theorem C06_create_atomic :
+  forall (cfg : config) (ops : list op) (k : kind) (kvs : list (nat * val)) (e : exc) (s' : st),
+    forallb guard04 ops = true ->
+    let s := run cfg ops in
+    step cfg s (OCreate k kvs) = (Raise e, s') ->
+    heap s' = heap s /\ tables s' = tables s /\ caches s' = caches s /\ pickles s' = pickles s /\
+    slots s' = slots s ++ [None].
+Proof. exact C06_create_atomic_proof. Qed.
+
+(* ... also under a database error injected at the INSERT (statement 0) or beyond the last statement. *)
+Theorem C06_create_fault_atomic :
+  forall (cfg : config) (ops : list op) (k : kind) (kvs : list (nat * val)) (n : nat) (e : exc) (s' : st),
+    forallb guard04 ops = true -> n <> 1%nat ->
+    let s := run cfg ops in
+    step cfg s (OFault n (OCreate k kvs)) = (Raise e, s') ->
+    heap s' = heap s /\ tables s' = tables s /\ caches s' = caches s /\ pickles s' = pickles s /\
+    slots s' = slots s ++ [None].
+Proof. exact C06_create_fault_atomic_proof. Qed.
+
+(* With the error at statement 1 the statement is FALSE of the code: the database error hits the
    re-read that follows the INSERT (the row is already autocommitted, the instance already registered):
    witness below, open finding create_fails_after_insert. *)
 Definition cfg0 := {| doCache := true; cullFreq := 100; cullFrac := 2 |}.
@@ -31,6 +54,13 @@ Proof. eexists _, _. split; [vm_compute; reflexivity|]. split; vm_compute; discr
 (* non-vacuity: raising writes of every kind exist on a reachable state *)
 Definition hist0 := [OCreate Eager [(1%nat, VInt 100); (0%nat, VInt 1)]; OCreate Eager [(1%nat, VInt 101)];
                      OCreate Lazy [(1%nat, VInt 102)]; OCreate Lazy [(1%nat, VInt 103)]].
+Example C06_create_raises_examples :
+  fst (step cfg0 (run cfg0 hist0) (OCreate Eager [(1%nat, VInt 100)])) = Raise EDuplicate /\
+  fst (step cfg0 (run cfg0 hist0) (OCreate Eager [(0%nat, VInt 1)])) = Raise ETypeError /\
+  fst (step cfg0 (run cfg0 hist0) (OCreate Lazy [(1%nat, VInt 7); (2%nat, VBad)])) = Raise EInvalid /\
+  fst (step cfg0 (run cfg0 hist0) (OFault 0 (OCreate Eager [(1%nat, VInt 9)]))) = Raise EOperational /\
+  forallb guard04 hist0 = true.
+Proof. vm_compute. repeat split. Qed.
 Example C06_invalid_in_second_position :
   fst (step cfg0 (run cfg0 hist0) (OSet 0 [(0%nat, VInt 3); (2%nat, VBad)])) = Raise EInvalid.
 Proof. vm_compute. reflexivity. Qed.
@@ -48,4 +78,6 @@ Example C06_lazy_flush_refused :
 Proof. vm_compute. reflexivity. Qed.
 
 Print Assumptions C06_failing_write_changes_nothing.
+Print Assumptions C06_create_atomic.
+Print Assumptions C06_create_fault_atomic.
 Print Assumptions C06_create_reread_fault_refuted.
